@@ -412,7 +412,6 @@ func DeepEffects(fn *ssa.Function, root ssa.Value, mutators map[string]bool, dep
 	return out
 }
 
-
 // externName: "pkgpath.Name" of a statically called function (the generic origin for instantiations), or the builtin's name.
 func externName(cc *ssa.CallCommon) string {
 	if bi, ok := cc.Value.(*ssa.Builtin); ok {
@@ -434,13 +433,13 @@ func externName(cc *ssa.CallCommon) string {
 // writesArg: library functions (no body in the analysed program) and builtins that write into the object one of their
 // arguments refers to: name -> argument indices.
 var writesArg = map[string][]int{
-	"copy":  {0},
-	"clear": {0},
+	"copy":      {0},
+	"clear":     {0},
 	"maps.Copy": {0}, "maps.DeleteFunc": {0}, "maps.Insert": {0},
 	"golang.org/x/exp/maps.Copy": {0}, "golang.org/x/exp/maps.DeleteFunc": {0}, "golang.org/x/exp/maps.Clear": {0},
 	"slices.Sort": {0}, "slices.SortFunc": {0}, "slices.SortStableFunc": {0}, "slices.Reverse": {0},
 	"sort.Slice": {0}, "sort.SliceStable": {0}, "sort.Sort": {0}, "sort.Stable": {0}, "sort.Strings": {0}, "sort.Ints": {0}, "sort.Float64s": {0},
-	"encoding/json.Unmarshal": {1},
+	"encoding/json.Unmarshal":    {1},
 	"sigs.k8s.io/yaml.Unmarshal": {1},
 }
 
